@@ -82,7 +82,35 @@ class PathClient(Client):
 
     def kill(self, s, name):
         pat = re.compile(r'\b%s\b' % re.escape(name))
-        return s.drop_if(lambda k, v: k[0] == 'cond' and pat.search(k[1]) is not None)
+        return s.drop_if(lambda k, v: (k[0] == 'cond' and pat.search(k[1]) is not None)
+                         or (k[0] == 'bind' and (k[1] == name or (v[0] == 'alias' and pat.search(v[1]) is not None))))
+
+    def binding(self, s, name):
+        """what a local currently stands for on this path: ('none',) | ('alias', source of a name / attribute) | None"""
+        return s.get(('bind', name)) if s is not None else None
+
+    def _none_test(self, s, expr):
+        """`x is None` / `x is not None` for a local bound on this path to None, to something known to be truthy, or to a
+        module-level display -> True / False / None (unknown)"""
+        if not (isinstance(expr, ast.Compare) and len(expr.ops) == 1 and isinstance(expr.ops[0], (ast.Is, ast.IsNot)) and isinstance(expr.left, ast.Name)
+                and isinstance(expr.comparators[0], ast.Constant) and expr.comparators[0].value is None):
+            return None
+        b = self.binding(s, expr.left.id)
+        if b is None:
+            return None
+        is_none = None
+        if b[0] == 'none':
+            is_none = True
+        elif b[0] == 'alias':
+            if s.get(('cond', b[1])) is True:
+                is_none = False
+            elif b[1].isidentifier() and b[1] not in self.f.locals and b[1] not in self.f.params:
+                ent = self.p.resolve_name(self.f, b[1])
+                if ent is not None and ent.kind == 'const' and len(ent.obj[2]) == 1 and isinstance(ent.obj[2][0], (ast.List, ast.Tuple, ast.Dict, ast.Set, ast.JoinedStr)):
+                    is_none = False
+        if is_none is None:
+            return None
+        return is_none if isinstance(expr.ops[0], ast.Is) else not is_none
 
     # ---------------------------------------------------------------- hooks
     def atom(self, it, s, expr):
@@ -97,6 +125,8 @@ class PathClient(Client):
             return out_t, out_f
         key = ('cond', src_of(expr))
         v = s.get(key)
+        if v is None:
+            v = self._none_test(s, expr)
         if v is True:
             return [self.on_test(it, s, expr, True)], []
         if v is False:
@@ -138,6 +168,10 @@ class PathClient(Client):
             s = self.kill(s, target.id)
             if isinstance(value, tuple):
                 s = s.set(('cond', target.id), value[1])
+            elif isinstance(value, ast.Constant) and value.value is None:
+                s = s.set(('bind', target.id), ('none',))
+            elif isinstance(value, (ast.Name, ast.Attribute)) and self.is_pure(value):
+                s = s.set(('bind', target.id), ('alias', src_of(value)))
         elif isinstance(target, (ast.Tuple, ast.List)):
             for t in target.elts:
                 if isinstance(t, ast.Name):
